@@ -367,10 +367,10 @@ def run(ck):
     # 1. design
     inv = ["InvPruneSound", "InvStackUnion", "InvPairs"]
     if ck.quick:
-        ck.mc("RepoQuery_MC", cfg_text=mc_cfg(3, 2, "FALSE", inv), workers=4, timeout=300, label="MC:RepoQuery_MC 3 leaves depth2 basic")
+        ck.mc("RepoQuery_MC", cfg_text=mc_cfg(3, 2, '"basic"', inv), workers=4, timeout=300, label="MC:RepoQuery_MC 3 leaves depth2 basic")
     else:
-        ck.mc("RepoQuery_MC", cfg_text=mc_cfg(4, 2, "TRUE", inv), workers=4, timeout=840, label="MC:RepoQuery_MC 4 leaves depth2 rich")
-    neg = ck.mc("RepoQuery_MC", cfg_text=mc_cfg(3, 1, "FALSE", ["InvShippedSound"]), workers=2, timeout=300, expect_ok=False,
+        ck.mc("RepoQuery_MC", cfg_text=mc_cfg(4, 2, '"mid"', inv), workers=4, timeout=840, label="MC:RepoQuery_MC 4 leaves depth2 mid")
+    neg = ck.mc("RepoQuery_MC", cfg_text=mc_cfg(3, 1, '"basic"', ["InvShippedSound"]), workers=2, timeout=300, expect_ok=False,
                 label="MC:RepoQuery_MC negative control (snapshot collector)")
     if neg.violated != "InvShippedSound":
         raise tlc.MachineryError("negative control: the snapshot's collector was not found unsound by the model")
@@ -395,9 +395,9 @@ def run(ck):
     ck.exhaustive = True
     # 3. code -> spec
     r_ = rng(8)
-    for u in range(ck.pick(2, 8)):
+    for u in range(ck.pick(1, 8)):
         b = Batch(ck, env, random_repos(r_), f"Trace:random-universe-{u}")
-        for _ in range(ck.pick(500, 2500)):
+        for _ in range(ck.pick(800, 2500)):
             b.run(random_tree(env, r_), random_query(env, b.uni, r_), "random")
         if u == 0:
             ck.sample(dict(direction="code->spec", repos=b.uni.repos, event=b.events[-1]))
